@@ -1,6 +1,7 @@
 CONSTANTS
   N = 8
   MaxTasks = 200
+  G = 3
   Dev = {}
 INIT TInit
 NEXT TNext
